@@ -3,7 +3,9 @@
 package trans
 
 import (
+	"context"
 	"fmt"
+	"github.com/specterops/dawgs/cypher/models/pgsql/translate"
 
 	"github.com/specterops/dawgs/internal/verifrt"
 )
@@ -153,6 +155,94 @@ func VerifC05Total(t int) {
 	}
 	sql, _, err = verifTranslate(q2, params)
 	verifrt.Assert(err != nil || len(sql) > 0, "translation with any parameter map returns SQL or an error")
+}
+
+var verifC05Functions = []string{"count", "date", "time", "localtime", "datetime", "localdatetime", "duration", "id", "tolower", "toupper", "labels", "type", "startnode", "endnode", "split", "tostring", "tointeger", "toint", "size", "head", "tail", "nodes", "relationships", "coalesce", "collect", "sum", "avg", "min", "max", "tofloat", "unknownfunction"}
+
+// VerifC05Functions: every function the translator knows (and one it does not), called
+// with 0, 1, 2 or 3 arguments of several shapes, in a projection or a predicate: translation
+// returns SQL or an error - it never panics - and does not touch the model.
+func VerifC05Functions() {
+	name := verifC05Functions[verifrt.NondetChoice("function", len(verifC05Functions))]
+	argLists := []string{"", "n", "n.name", "r", "p", "n.name, 'x'", "n, r", "1, 2, 3", "distinct n", "*"}
+	args := argLists[verifrt.NondetChoice("arguments", len(argLists))]
+	text := "match p = (n)-[r]->(m) return " + name + "(" + args + ")"
+	if verifrt.NondetChoice("position", 2) == 1 {
+		text = "match p = (n)-[r]->(m) where " + name + "(" + args + ") = 1 return n"
+	}
+	q1, err := verifNativeParse(text, nil)
+	if err != nil {
+		return
+	}
+	q2, _ := verifNativeParse(text, nil)
+	sql, _, err := verifTranslate(q1, verifC05Params())
+	verifrt.Observe(text, err == nil)
+	verifrt.Assert(err != nil || len(sql) > 0, "translation returns SQL or an error")
+	verifrt.Assert(verifrt.DeepEqual(q1, q2), "translation leaves the caller's query model unchanged")
+}
+
+// VerifC05Generated: every sentence derived from the grammar that the parser accepts is
+// translated: SQL or an error, never a panic, model unchanged, and the same outcome again.
+func VerifC05Generated(from, to int) {
+	if to > len(verifGenerated) {
+		to = len(verifGenerated)
+	}
+	if from >= to {
+		return
+	}
+	text := verifGenerated[from+verifrt.NondetChoice("sentence", to-from)]
+	q1, err := verifNativeParse(text, nil)
+	if err != nil || q1 == nil {
+		return
+	}
+	q2, _ := verifNativeParse(text, nil)
+	sql1, _, err1 := verifTranslate(q1, verifC05Params())
+	verifrt.Assert(err1 != nil || len(sql1) > 0, "translation returns SQL or an error")
+	verifrt.Assert(verifrt.DeepEqual(q1, q2), "translation leaves the caller's query model unchanged")
+	sql2, _, err2 := verifTranslate(q1, verifC05Params())
+	verifrt.Assert((err1 == nil) == (err2 == nil) && sql1 == sql2, "repeating the translation gives the same outcome")
+}
+
+// VerifC05SharedMapper: translations that share one kind mapper do not influence each other:
+// after a translation that fails (unknown kind, unsupported shape) or succeeds, every later
+// translation through the same mapper gives the SQL it gives through a fresh mapper - and
+// returns at all.
+func VerifC05SharedMapper() {
+	first := []string{
+		"match (n:UnknownKindA) return n",
+		"match (n)-[r:UnknownKindB]->(m) return r",
+		"match (n:User) return n",
+		"match (n) return unknownfunction(n)",
+		"match (n:User) set n:UnknownKindC return n",
+	}
+	second := []string{
+		"match (n:User) return n",
+		"create (n:Computer {name: 'x'}) return n",
+		"match (n:User) set n:Group return n",
+		"match (n:UnknownKindA) return n",
+		"match (a:User), (b:Group) create (a)-[:MemberOf]->(b)",
+	}
+	t1 := first[verifrt.NondetChoice("first translation", len(first))]
+	t2 := second[verifrt.NondetChoice("second translation", len(second))]
+	q1, err := verifNativeParse(t1, nil)
+	if err != nil {
+		return
+	}
+	q2, err := verifNativeParse(t2, nil)
+	if err != nil {
+		return
+	}
+	q2b, _ := verifNativeParse(t2, nil)
+	shared := verifKindMapper()
+	translate.Translate(context.Background(), q1, shared, verifC05Params(), 1)
+	res, err := translate.Translate(context.Background(), q2, shared, verifC05Params(), 1)
+	fresh, ferr := translate.Translate(context.Background(), q2b, verifKindMapper(), verifC05Params(), 1)
+	verifrt.Assert((err == nil) == (ferr == nil), "an earlier translation through the same kind mapper does not change whether a later one succeeds")
+	if err == nil && ferr == nil {
+		a, _ := translate.Translated(res)
+		b, _ := translate.Translated(fresh)
+		verifrt.Assert(a == b, "an earlier translation through the same kind mapper does not change a later one's SQL")
+	}
 }
 
 func VerifC05Witness() {
